@@ -347,6 +347,60 @@ theorem late_message_kept_partial (c : Cl) (e : Ev) (mid ts tok : Nat) (Ls : Lis
   C02Chain.late_message_kept_partial c e mid ts tok Ls Ms sched nx hg ha hr hsec hbelow hn hu hk htag hopen hle hpast hf hc hnb
     hch hms hfresh hdist hmid hw
 
+/-- after a level-by-level schedule with slots over n levels, the state after level k (k + d = n) is a retained past state
+    if d ≤ max_past_epochs, and the outer layer opens its events if d ≤ 5: the two window conditions of a late message, derived -/
+theorem late_window_derived (c : Cl) (Ls : List Level) (Ms : List (List Ev))
+    (sched : List (List Ev × List Ev)) (nx : Nat)
+    (hg : c.hasGroup = true) (ha : c.g.active = true) (hr : 1 ≤ c.retention) (hsec : SecretsOK c.g) (hbelow : Below c)
+    (hn : c.g.recNid = c.g.nid) (hu : RowsUnique c.msgs)
+    (hch : ChainEv c.id (core c.g) Ls) (hms : SlotsEv c.id (core c.g) Ls Ms)
+    (hfresh : ∀ e ∈ evs Ls ++ Ms.flatten, getRec c e.n = none ∧ e.cipher ∉ c.g.consumed)
+    (hw : MLevelWise (evs Ls ++ Ms.flatten) c.g.path Ls Ms sched)
+    (k d : Nat) (hkd : k + d = Ls.length) (hd1 : 1 ≤ d) (hdm : d ≤ c.maxPast) (hd5 : d ≤ 5)
+    (x : Ev) (hx : x.path = c.g.path ++ (Ls.map (·.1.cipher)).take k) :
+    outerOpens (ensureSecret (run nx c (flat sched)).g) x = true ∧
+    (run nx c (flat sched)).g.past.contains x.path = true ∧
+    epochOf x.path + d = epochOf (run nx c (flat sched)).g.path :=
+  C02Chain.late_window_derived c Ls Ms sched nx hg ha hr hsec hbelow hn hu hch hms hfresh hw k d hkd hd1 hdm hd5 x hx
+
+/-- a message of the state after level k that arrives only after the whole schedule (n − k ≤ min(max_past_epochs, 5)) is stored
+    exactly once as sent, Processed, under the receiver's epoch; the other rows are what they were -/
+theorem late_message_in_chain_partial (c : Cl) (Ls : List Level) (Ms : List (List Ev))
+    (sched : List (List Ev × List Ev)) (nx : Nat)
+    (hg : c.hasGroup = true) (ha : c.g.active = true) (hr : 1 ≤ c.retention) (hsec : SecretsOK c.g) (hbelow : Below c)
+    (hn : c.g.recNid = c.g.nid) (hu : RowsUnique c.msgs)
+    (hch : ChainEv c.id (core c.g) Ls) (hms : SlotsEv c.id (core c.g) Ls Ms)
+    (hfresh : ∀ e ∈ evs Ls ++ Ms.flatten, getRec c e.n = none ∧ e.cipher ∉ c.g.consumed)
+    (hw : MLevelWise (evs Ls ++ Ms.flatten) c.g.path Ls Ms sched)
+    (k d : Nat) (hkd : k + d = Ls.length) (hd1 : 1 ≤ d) (hdm : d ≤ c.maxPast) (hd5 : d ≤ 5)
+    (x : Ev) (mid ts tok : Nat) (hk : x.kind = .app mid ts tok)
+    (hx : x.path = c.g.path ++ (Ls.map (·.1.cipher)).take k) (htag : x.tag = c.g.recNid) (hf : x.sender ≠ c.id)
+    (hxfresh : getRec c x.n = none ∧ x.cipher ∉ c.g.consumed)
+    (hxn : ∀ e ∈ flat sched, x.n ≠ e.n) (hxc : ∀ e ∈ evs Ls ++ Ms.flatten, e.cipher ≠ x.cipher) :
+    (deliver (run nx c (flat sched)) x nx).2 = .app mid ∧
+    (run nx c (flat sched ++ [x])).msgs.filter (·.mid == mid) =
+      [{ mid := mid, author := x.sender, state := 1, epoch := epochOf c.g.path + Ls.length, wrapper := x.n, msgTs := ts, tok := tok }] ∧
+    (∀ m, m ≠ mid → findRow m (run nx c (flat sched ++ [x])).msgs = findRow m (run nx c (flat sched)).msgs) :=
+  C02Chain.late_message_in_chain_partial c Ls Ms sched nx hg ha hr hsec hbelow hn hu hch hms hfresh hw k d hkd hd1 hdm hd5 x mid ts tok
+    hk hx htag hf hxfresh hxn hxc
+
+/-- the final state of such a schedule satisfies the per-client hypotheses again (the theorems compose) -/
+theorem chain_with_slots_restores (c : Cl) (Ls : List Level) (Ms : List (List Ev))
+    (sched : List (List Ev × List Ev)) (nx : Nat)
+    (hg : c.hasGroup = true) (ha : c.g.active = true) (hr : 1 ≤ c.retention) (hsec : SecretsOK c.g) (hbelow : Below c)
+    (hn : c.g.recNid = c.g.nid) (hu : RowsUnique c.msgs)
+    (hch : ChainEv c.id (core c.g) Ls) (hms : SlotsEv c.id (core c.g) Ls Ms)
+    (hfresh : ∀ e ∈ evs Ls ++ Ms.flatten, getRec c e.n = none ∧ e.cipher ∉ c.g.consumed)
+    (hw : MLevelWise (evs Ls ++ Ms.flatten) c.g.path Ls Ms sched) :
+    (run nx c (flat sched)).hasGroup = true ∧ (run nx c (flat sched)).g.active = true ∧ 1 ≤ (run nx c (flat sched)).retention ∧
+    SecretsOK (run nx c (flat sched)).g ∧ Below (run nx c (flat sched)) ∧
+    (run nx c (flat sched)).g.recNid = (run nx c (flat sched)).g.nid ∧ (run nx c (flat sched)).g.recNid = c.g.recNid ∧
+    (run nx c (flat sched)).id = c.id ∧ (run nx c (flat sched)).maxPast = c.maxPast ∧
+    core (run nx c (flat sched)).g = (Ls.map (·.1)).foldl coreStep (core c.g) ∧
+    (∀ n, getRec c n = none → (∀ e ∈ flat sched, n ≠ e.n) → getRec (run nx c (flat sched)) n = none) ∧
+    (∀ x ∈ (run nx c (flat sched)).g.consumed, x ∈ c.g.consumed ∨ ∃ e ∈ evs Ls ++ Ms.flatten, e.cipher = x) :=
+  C02Chain.chain_with_slots_restores c Ls Ms sched nx hg ha hr hsec hbelow hn hu hch hms hfresh hw
+
 /-- the slot hypothesis is needed: for arbitrary interleavings the statement is false of the code
     (`handshake-before-predecessor-blocked`; `receiver-epoch-tag`) -/
 theorem history_needs_slots : ¬ C02Chain.C02_history_full := C02Chain.C02_history_full_false
